@@ -502,10 +502,11 @@ func nilReturnsGuarded(ne *NilEnv, ret *ssa.Return, errIdx int, guard func(g Gua
 			}
 			// the edge pb -> phi block itself may be the guard edge
 			edgeOK := domOK(pb)
-			if !edgeOK && len(pb.Instrs) > 0 {
-				if iff, ok := pb.Instrs[len(pb.Instrs)-1].(*ssa.If); ok && pb.Succs[0] != pb.Succs[1] {
-					g := Guard{Cond: iff.Cond, Pol: pb.Succs[0] == ph.Block(), If: iff}.norm()
-					edgeOK = guard(g)
+			if !edgeOK {
+				for _, g := range guardsOnEdge(pb, ph.Block()) {
+					if guard(g.norm()) {
+						edgeOK = true
+					}
 				}
 			}
 			if edgeOK {
